@@ -1,6 +1,6 @@
 SPECIFICATION Spec
 CONSTANT MaxWords = 3
-CONSTANT MaxLen = 3
+CONSTANT MaxLen = 2
 INVARIANT Emit
 INVARIANT Thm1
 INVARIANT Thm2
